@@ -173,8 +173,8 @@ class ExpsGen:
 
     def posmark(self) -> str:
         r = self.r
-        x = str(r.choice([0, 1, 10, 20, 63]))
-        y = str(r.choice([0, 2, 10, 31]))
+        x = str(r.choice([0, 1, 10, 20, 63, -1, -4]))
+        y = str(r.choice([0, 2, 10, 31, -1, -12]))
         if r.random() < 0.4:
             x += ".5"
         if r.random() < 0.4:
